@@ -110,11 +110,42 @@ macro_rules! with_pod {
     };
 }
 
+/// Raw view of the container's bytes, independent of the API under test.
+pub trait Raw {
+    fn read_all(&self) -> Vec<u8>;
+    fn write_all(&self, data: &[u8]);
+    /// stable host pointer of byte 0, if the container has one (on-demand Xen regions do not)
+    fn host(&self) -> Option<*mut u8>;
+    /// address of byte 0 as far as alignment is concerned
+    fn align_base(&self) -> usize;
+}
+
+pub struct PtrRaw(pub *mut u8, pub usize);
+impl Raw for PtrRaw {
+    fn read_all(&self) -> Vec<u8> {
+        // SAFETY: inside the container.
+        (0..self.1).map(|i| unsafe { self.0.add(i).read_volatile() }).collect()
+    }
+    fn write_all(&self, data: &[u8]) {
+        for (i, b) in data.iter().enumerate() {
+            // SAFETY: inside the container.
+            unsafe { self.0.add(i).write_volatile(*b) };
+        }
+    }
+    fn host(&self) -> Option<*mut u8> {
+        Some(self.0)
+    }
+    fn align_base(&self) -> usize {
+        self.0 as usize
+    }
+}
+
 pub struct St {
     pub model: Vec<u8>,
     /// kind of the operation family that last wrote each byte (0 = initial fill)
     pub writer: Vec<u8>,
-    pub host: *mut u8,
+    pub host: Option<*mut u8>,
+    pub align_base: usize,
 }
 
 impl St {
@@ -298,7 +329,9 @@ fn op_array<T: Pod, M: VolatileMemory>(c: &M, st: &mut St, t: &mut Tape, cx: &mu
         _ => {
             let s = ar.to_slice();
             ensure!(s.len() == n * T::N, "array.to_slice().len() = {}, want {}", s.len(), n * T::N);
-            ensure!(s.ptr_guard().as_ptr() == st.host.wrapping_add(off) as *const u8, "array.to_slice() points elsewhere");
+            if let Some(h) = st.host {
+                ensure!(s.ptr_guard().as_ptr() == h.wrapping_add(off) as *const u8, "array.to_slice() points elsewhere");
+            }
             note!(cx, "array::<{}>({},{}).to_slice()", T::NAME, off, n);
         }
     }
@@ -452,7 +485,7 @@ fn op_bytes<M: VolatileMemory>(c: &M, st: &mut St, t: &mut Tape, cx: &mut Cx) ->
             let ty = t.idx(NATOM);
             let sz = ATOM_SIZES[ty];
             let fits = off as u128 + sz as u128 <= size as u128;
-            let aligned = (st.host as usize).wrapping_add(off) % sz == 0;
+            let aligned = st.align_base.wrapping_add(off) % sz == 0;
             let data = t.bytes(8);
             classify_span(size, off, sz, cx);
             if op == 6 {
@@ -506,13 +539,14 @@ fn op_slice_to_slice<M: VolatileMemory>(c: &M, st: &mut St, t: &mut Tape, cx: &m
 }
 
 pub fn history<M: VolatileMemory>(c: &M, host: *mut u8, size: usize, check_frame: &dyn Fn() -> Result<(), String>, t: &mut Tape, cx: &mut Cx) -> Result<(), String> {
+    history_raw(c, &PtrRaw(host, size), size, check_frame, t, cx)
+}
+
+pub fn history_raw<M: VolatileMemory>(c: &M, raw: &dyn Raw, size: usize, check_frame: &dyn Fn() -> Result<(), String>, t: &mut Tape, cx: &mut Cx) -> Result<(), String> {
     ensure!(c.len() == size && c.is_empty() == (size == 0), "len()/is_empty() of the container");
     let init: Vec<u8> = (0..size).map(|i| (i as u8).wrapping_mul(7).wrapping_add(3)).collect();
-    for (i, b) in init.iter().enumerate() {
-        // SAFETY: inside the container.
-        unsafe { host.add(i).write_volatile(*b) };
-    }
-    let mut st = St { model: init, writer: vec![0; size], host };
+    raw.write_all(&init);
+    let mut st = St { model: init, writer: vec![0; size], host: raw.host(), align_base: raw.align_base() };
     let nops = 1 + t.idx(30);
     for i in 0..nops {
         if t.exhausted() && i > 0 {
@@ -534,9 +568,9 @@ pub fn history<M: VolatileMemory>(c: &M, host: *mut u8, size: usize, check_frame
             }
             _ => op_slice_to_slice(c, &mut st, t, cx)?,
         }
+        let now = raw.read_all();
         for o in 0..size {
-            // SAFETY: inside the container.
-            let got = unsafe { host.add(o).read_volatile() };
+            let got = now[o];
             if got != st.model[o] {
                 return Err(format!("after step {}: container byte {} is {:#04x}, the model has {:#04x}", i, o, got, st.model[o]));
             }
